@@ -209,6 +209,9 @@ def parse_voronoi_tok(t):
     out['conn'] = [t.int() for _ in range(k)]
     out['cells'] = cells
     out['faces'] = faces
+    if t.i < len(t.t) and t.peek() == 'META':
+        t.next()
+        out['meta'] = {'anchor': t.v3(), 'width': t.v3(), 'dim': t.int(), 'periodic': t.int()}
     out['tokens'] = t.t[start:t.i]
     return out
 
